@@ -2,7 +2,7 @@
    (C04_sessions_as_if_alone ...) and the QUIC demultiplexer (C04_quic_...: addresses first, then connection IDs). *)
 From Coq Require Import ZArith List Bool.
 From Coq Require String.
-Require Import PyLib SuiteTypes Crypto KeySchedule Packet TlsSession Main C04P QuicIdP QuicDemuxP OwnKeysP.
+Require Import PyLib SuiteTypes Crypto KeySchedule Packet TlsSession Main C04P QuicIdP QuicDemuxP OwnKeysP CidP.
 Import ListNotations.
 Open Scope Z_scope.
 
@@ -18,10 +18,12 @@ Print Assumptions C04_sessions_as_if_alone.
 (* same_flowb is "same unordered pair of (address, port) endpoints" *)
 Theorem C04_flow : forall q p, same_flowb q p = true <-> (addr p = addr q \/ addr p = rev (addr q)).
 Proof. exact same_flowb_iff. Qed.
+Print Assumptions C04_flow.
 
 (* sessions of different flows are different sessions *)
 Theorem C04_flows_disjoint : forall q1 q2 ss, ~ same_flow q1 q2 -> forall s, In s (proj q1 ss) -> ~ In s (proj q2 ss).
 Proof. exact proj_disjoint. Qed.
+Print Assumptions C04_flows_disjoint.
 
 (* the output is the concatenation of the per-session outputs, in session order: each session is decrypted and built on its own *)
 Theorem C04_output_is_union : forall C tbl parts o keylog a b,
@@ -48,6 +50,38 @@ Theorem C04_quic_hypothesis_met : forall q ss p,
   (forall long, QuicDissector.get_header_type_long (p_data p) = Ok long -> (forall t, In t ss -> QuicSession.matches_session_dgram t p = false) ->
      forall s, In s ss -> known_cid s p long (hdr_dcid p long) = None) -> respects q ss p.
 Proof. exact respects_when_no_cid_hit. Qed.
+Print Assumptions C04_quic_hypothesis_met.
+
+(* a zero-length connection ID identifies nothing: the connection ID by which a session claims a datagram (long or short header, from
+   any address) is never empty, and is one the session knows.  So sessions whose peers use zero-length connection IDs only -- what
+   browsers do on the client side -- are found by their addresses alone, and the hypothesis above holds for every datagram. *)
+Theorem C04_zero_length_cid_identifies_nothing : forall s p long dcid c, known_cid s p long dcid = Some c ->
+  0 < len c /\ (In c (QuicSession.qs_client_cids s) \/ In c (QuicSession.qs_server_cids s)).
+Proof. exact known_cid_nonempty. Qed.
+Print Assumptions C04_zero_length_cid_identifies_nothing.
+
+Theorem C04_quic_empty_cids_respect : forall q ss p,
+  (forall s, In s ss -> (forall c, In c (QuicSession.qs_client_cids s) -> c = []) /\ (forall c, In c (QuicSession.qs_server_cids s) -> c = [])) -> respects q ss p.
+Proof.
+  intros q ss p H. apply respects_when_no_cid_hit. intros long _ _ s Hs. destruct (H s Hs) as [Hc Hv]. exact (only_empty_cids_claim_nothing s p long _ Hc Hv).
+Qed.
+Print Assumptions C04_quic_empty_cids_respect.
+
+(* unrelated traffic: a short-header datagram (a 1-RTT packet of a connection the capture does not know, or anything that looks like
+   one) whose addresses are no session's and which no session claims by a connection ID leaves every session exactly as it was --
+   it opens no session and reaches none; next to sessions with zero-length connection IDs only the addresses count *)
+Theorem C04_stray_short_header_dropped : forall C o ftable kl ss p, QuicDissector.get_header_type_long (p_data p) = Ok false ->
+  (forall s, In s ss -> QuicSession.matches_session_dgram s p = false) -> (forall s, In s ss -> known_cid s p false [] = None) ->
+  handle_quic_packet C o ftable kl ss p = Ok ss.
+Proof. exact stray_short_header_dropped. Qed.
+Print Assumptions C04_stray_short_header_dropped.
+
+Theorem C04_stray_short_header_dropped_empty_cids : forall C o ftable kl ss p, QuicDissector.get_header_type_long (p_data p) = Ok false ->
+  (forall s, In s ss -> QuicSession.matches_session_dgram s p = false) ->
+  (forall s, In s ss -> (forall c, In c (QuicSession.qs_client_cids s) -> c = []) /\ (forall c, In c (QuicSession.qs_server_cids s) -> c = [])) ->
+  handle_quic_packet C o ftable kl ss p = Ok ss.
+Proof. exact stray_short_header_dropped_empty_cids. Qed.
+Print Assumptions C04_stray_short_header_dropped_empty_cids.
 
 (* one datagram: it changes at most the sessions of its own flow *)
 Theorem C04_quic_one_datagram : forall C o ftable kl q p ss ss', respects q ss p -> handle_quic_packet C o ftable kl ss p = Ok ss' ->
@@ -74,3 +108,4 @@ Print Assumptions C04_own_keylog_lines_quic.
 Theorem C04_foreign_lines_anywhere : forall cr a foreign b, Forall (fun k => bytes_eqb (KeySchedule.s_random k) cr = false) foreign ->
   own_lines cr (a ++ foreign ++ b) = own_lines cr (a ++ b).
 Proof. exact own_lines_insert. Qed.
+Print Assumptions C04_foreign_lines_anywhere.
